@@ -298,6 +298,15 @@ func (x *Exec) enterLoop(fr *Frame, li *loopInfo, in *State) {
 		x.smt.assume("(<= " + nl + " " + in.allocLow + ")")
 		in.allocLow = nl
 	}
+	// whatever the loop's variables refer to at the header exists at that moment: later
+	// allocations are distinct from it
+	for a := range li.cells {
+		if cell := fr.cells[a]; cell != nil {
+			if v, ok := in.cells[cell]; ok {
+				x.known(in, v)
+			}
+		}
+	}
 	if li.iter != nil {
 		if g, ok := fr.iters[li.iter]; ok {
 			if v, ok := in.ghost[g]; ok && !mods["g:"+g] {
@@ -463,8 +472,11 @@ func (x *Exec) step(fr *Frame, st *State, ins ssa.Instruction, edgeState map[[2]
 		ref := x.newRefIn(fr, st, ins.Comment)
 		p := PtrV{Ref: ref, Elem: elem}
 		m.wellFormed(p)
-		if _, isArr := elem.Underlying().(*types.Array); !isArr {
+		if at, isArr := elem.Underlying().(*types.Array); !isArr {
 			x.store(st, p, m.zeroValue(elem))
+		} else if at.Len() <= 8 {
+			// the backing array of a short composite literal: every element starts out zero
+			x.zeroArray(st, at.Elem(), ref, int(at.Len()))
 		}
 		fr.reg[ins] = p
 	case *ssa.Store:
